@@ -639,6 +639,13 @@ def _float_methods_conc(e, c, a):
     return Float(math.copysign(r, v))
 
 
+@model(r'<\{closure@.*\} as Fn(?:Mut|Once)?<\(.*\)>>::call(?:_mut|_once)?|<&(?:mut )?\{closure@.*\} as Fn(?:Mut|Once)?<\(.*\)>>::call(?:_mut|_once)?', 'direct call of a closure value (Fn::call with the argument tuple)')
+def _closure_call(e, c, a):
+    tup = a[1]
+    args = [cl.v for cl in tup.f] if isinstance(tup, Agg) else [tup]
+    return e.call_closure(a[0], args)
+
+
 # ---------------------------------------------------------------- cmp / ord
 @model(r'<(u8|u16|u32|u64|usize|i8|i16|i32|i64|isize|char) as Ord>::(max|min|cmp|clamp)', 'int Ord')
 def _ord_minmax(e, c, a):
